@@ -40,6 +40,8 @@ BH = {
  "C18e_2": "reported at first (validate rewritten as `iter().enumerate().find(..)` plus one match on a tuple of facts: R10.field / R10.dup could not see the tests); corrected: find/any/all/position are modelled as loops inside the validators, Option facts are threaded through tuple slots",
 }
 BH.update({
+ "C02e_3": "silent at first sight; reported for a while by a rule added later in the same round (R2.8 whole-value took `*d ^= *d_p`, an own share zipped with a received bit, for two parts of the message) - the rule now only counts parts whose non-bool type occurs in the message",
+ "C04e_3": "silent at first sight; reported for a while by R6.6 when it was added (`hi.iter().map(|h| commit(..)).collect()`: the adaptor's summary edge bypassed the hash inside the closure) - adaptor calls with a closure are followed through the closure only",
  "C08g_3": "reported at first (R1.i: `qs.chunks_exact_mut(n).zip(&uvec)` - the own buffer travels in one tuple with the peer's rows and the value-flow graph does not keep the two slots of a zip item apart; the own chunk then reached `split_at_mut(len / 16 * 16)` in AesRng::fill_bytes); corrected for this sink: a position that is the largest multiple of a constant below the container's own length is in range by construction. The slot-insensitivity of zip items remains a limit of the component analysis",
  "C16g_1": "reported at first (the validate fan-out and its join moved into a new `async fn validate_followers`: R9.compat picked the join of the run fan-out instead, R9.fanout did not see `other_parties()`); corrected: the join is chosen by dominance order, events of a spliced async helper remember where they really sit, the handler's test of the helper's Result counts when the helper cannot turn a failed join into Ok (control C16__validate_helper_swallows_join_error)",
  "C18g_1": "reported at first (validate split into `Context::expected_inputs_of(p)` / `check_output_parties()`: the receiver `self.circ.input_regs` is a nested place and the flow graph named only its outer field); corrected: a nested place denotes its innermost field",
